@@ -17,6 +17,9 @@ RULE = ("cases: (a) exhaustive small: every record length 1..7 carrying every si
         "(parametricity) and DNA words of length 1..40, 0..8 features of the shapes simple/join/origin-spanning "
         "join/past-the-end/whole on strands +1/-1/None, 1-2 per-letter tracks with pairwise distinct values, "
         "operation sequences single / additive pair / multiple of length / rotate-then-inverse / 2-5 mixed; "
+        "(b2) histories on one record object: rotate, edit the record or the previous result in place (identifiers, a feature's "
+        "location or qualifier, a track's values, an annotation, the sequence, the order of the table - never the counts), rotate "
+        "by the same amount again; "
         "(c) embedded: annotated assemblies, so that the rotations the library itself performs are judged. "
         "Every >>/<< call is judged by the RotationMonitor (sequence, tracks, every feature's denotation "
         "mapped back by -k, metadata) and the end result of each sequence against the harness's own net "
@@ -27,7 +30,7 @@ ASSUMPTIONS = [
     "a feature covering the whole circle exactly once has no distinguished start: cyclic shifts of it are equal",
     "Biopython Seq/SeqFeature/location classes are trusted",
 ]
-FLOORS = {"rotation_calls": 200, "rotation_feature_checks": 200, "law_checks": 50}
+FLOORS = {"rotation_calls": 200, "rotation_feature_checks": 200, "law_checks": 50, "history_rotations": 100}
 MUST_REACH = ["CircularRecord.__rshift__", "CircularRecord.__lshift__"]
 BUDGET_S = {"quick": 600, "thorough": 3600}
 LETTERS = "abcdefghijklmnopqrstuvwxyzABCDEFGHIJKLMNOPQRSTUVWXYZ0123456789"
@@ -38,6 +41,8 @@ def cases(tier, seed):
     ngen = 400 if tier == "quick" else 300000
     out += [{"kind": "gen", "i": i, "seed": seed} for i in range(ngen)]
     out += _embedded.assembly_cases(seed, 40 if tier == "quick" else 8000)
+    # histories on one record object: rotate, edit the record (or an earlier result) in place, rotate again by the same amount
+    out += [{"kind": "hist", "i": i, "seed": seed} for i in range(200 if tier == "quick" else 60000)]
     if tier == "thorough":
         out.append({"kind": "repo-tests"})
     return out
@@ -78,6 +83,19 @@ def materialise(case):
         return _small(case["n"])
     if case["kind"] == "assembly":
         return _embedded.materialise_assembly(case)
+    if case["kind"] == "hist":
+        base = materialise({"kind": "gen", "i": 10 ** 7 + case["i"], "seed": case["seed"]})
+        rh = gen.rng_for(case["seed"], PROP, "hist", case["i"])
+        n = len(base["rec"]["seq"])
+        ks = [rh.randint(-2 * n, 2 * n) for _ in range(rh.randint(1, 2))] + [rh.choice([0, n, 1])]
+        prog = []
+        for _ in range(rh.randint(2, 5)):
+            k = rh.choice(ks)
+            prog.append(["rot", rh.choice([">>", ">>", "<<"]), k])
+            prog.append([rh.choice(["edit-orig", "edit-orig", "edit-result"]),
+                         rh.choice(["rename", "move-feature", "qualifier", "track", "annotation", "seq", "swap-features", "describe"]), rh.randrange(10 ** 6)])
+            prog.append(["rot", prog[-2][1], k])      # the same rotation again: it must show the record as it is NOW
+        return {"kind": "hist-mat", "rec": base["rec"], "prog": prog}
     rng = gen.rng_for(case["seed"], PROP, case["i"])
     n = rng.choice([1, 2, 3]) if rng.random() < 0.1 else rng.randint(1, 40)
     r = rng.random()
@@ -164,6 +182,62 @@ def materialise(case):
 _mon = None
 
 
+def _edit(rec, what, r, ctx):
+    """edit a record in place the way a script does between two uses; counts (features, tracks) never change, so that a
+    cheap "was it edited?" test does not notice"""
+    import random
+    from Bio.Seq import Seq
+    from Bio.SeqFeature import FeatureLocation
+
+    rr = random.Random(r)
+    n = len(rec.seq)
+    located = [f for f in rec.features if f.location is not None and not any(p.ref for p in f.location.parts)]
+    if what == "rename":
+        rec.id, rec.name = (rec.id or "") + "_v2", "renamed"
+    elif what == "describe":
+        rec.description = "edited %d" % r
+    elif what == "move-feature" and located:
+        f = rr.choice(located)
+        a = rr.randrange(n)
+        f.location = FeatureLocation(a, rr.randint(a + 1, n), rr.choice([1, -1, None]))
+    elif what == "qualifier" and rec.features:
+        rr.choice(rec.features).qualifiers["note"] = ["edited %d" % r]
+    elif what == "track" and rec.letter_annotations:
+        k = rr.choice(sorted(rec.letter_annotations))
+        v = rec.letter_annotations[k]
+        rec.letter_annotations[k] = v[::-1]
+    elif what == "annotation":
+        rec.annotations["tags"] = list(rec.annotations.get("tags", [])) + ["t%d" % r]
+    elif what == "seq":
+        rec.seq = Seq(str(rec.seq)[::-1].swapcase())
+    elif what == "swap-features" and len(rec.features) > 1:
+        rec.features.reverse()
+    else:
+        rec.description = "touched %d" % r
+    ctx.hist("history_edit", what)
+
+
+def _history(mat, ctx):
+    """rotate / edit in place / rotate by the same amount again, on ONE record object and its earlier results.  Every >> / <<
+    is judged by the RotationMonitor against the operand as it is at the moment of the call, so a result remembered from
+    before the edit (or an earlier result handed out again after the caller changed it) shows as a refuted post-condition."""
+    ctx.count("evaluations")
+    rec = gen.make_record(mat["rec"])
+    results = []
+    for step in mat["prog"]:
+        if step[0] == "rot":
+            results.append((rec >> step[2]) if step[1] == ">>" else (rec << step[2]))
+            ctx.count("history_rotations")
+        elif step[0] == "edit-orig":
+            _edit(rec, step[1], step[2], ctx)
+        elif results:
+            _edit(results[-1], step[1], step[2], ctx)
+            ctx.count("history_edits_of_results")
+    ctx.count("law_checks")
+    ctx.hist("mode", "history")
+    ctx.nontrivial(["hist", len(mat["rec"]["seq"]), [f["parts"] for f in mat["rec"]["features"]], mat["prog"]])
+
+
 def worker_init(ctx, tier):
     global _mon
     _mon = RotationMonitor(ctx)
@@ -180,6 +254,9 @@ def execute(mat, ctx):
         if ctx.counters["rotation_calls"] > before:
             ctx.count("embedded_assemblies_with_rotations")
             ctx.nontrivial(["asm", mat["enzyme"], [m["seq"] for m in mat["modules"]]])
+        return
+    if mat["kind"] == "hist-mat":
+        _history(mat, ctx)
         return
     n = len(mat["rec"]["seq"])
     for ops in mat["opseqs"]:
